@@ -23,7 +23,8 @@ Inductive stmt : Type :=
 | LAppend (x : name) (v : Z)
 | LRemove (x : name) (v : Z)
 | LGet (x : name) (i : Z)                   (* mon.write(x[i]) *)
-| LSet (x : name) (i : Z) (v : Z)           (* __redu_list_get(x, i) = v *)
+| LSet (x : name) (i : Z) (v : Z)           (* __redu_list_get(x, i) = v : a store through the T& overload; the current
+                                               parser drops `x[i] = v` lines (C07), so no source statement elaborates to it *)
 | LLocalDeclLit (x : name) (items : list Z) (* first `x = [..]` inside the main loop: local of loop() *)
 | LLocalDeclComp (x : name) (c : comp)      (* first `x = [.. for ..]` inside the loop *)
 | LCallGet (x : name) (i : Z)               (* r = f(x, i) with  def f(xs, k): return xs[k]   (by-value parameter) *)
